@@ -36,6 +36,7 @@ pub struct GateSt {
     pub entered: usize,
     pub log: Vec<(String, Outcome, ThreadId)>,
     pub handled: Vec<(u64, usize, ThreadId)>,
+    pub flushes: Vec<ThreadId>,
     pub dropped: bool,
 }
 
@@ -57,6 +58,7 @@ impl Gate {
                 entered: 0,
                 log: vec![],
                 handled: vec![],
+                flushes: vec![],
                 dropped: false,
             }),
             cv: Condvar::new(),
@@ -86,8 +88,32 @@ impl MetricSink for GatedSink {
         }
         match o {
             Outcome::Ok => Ok(metric.len()),
-            Outcome::Err(id) => Err(io::Error::new(io::ErrorKind::Other, Payload(id))),
+            // the io::ErrorKind varies with the payload id (id 8 -> Interrupted, 5 -> WouldBlock, 9 -> Other ...)
+            Outcome::Err(id) => Err(io::Error::new(crate::wire::IO_KINDS[id as usize % crate::wire::IO_KINDS.len()], Payload(id))),
             Outcome::Panic => panic!("scripted panic of the wrapped sink"),
+        }
+    }
+
+    fn flush(&self) -> io::Result<()> {
+        self.flush_impl();
+        Ok(())
+    }
+}
+
+impl GatedSink {
+    /// like the buffered sinks of the crate, flush shares a lock with emit: it waits while a metric is being
+    /// processed (bounded, so that a caller that wrongly ends up here is reported as slow instead of hanging)
+    fn flush_impl(&self) {
+        let mut st = self.gate.m.lock().unwrap();
+        st.flushes.push(thread::current().id());
+        let deadline = Instant::now() + SLOW + Duration::from_millis(100);
+        while st.inside.is_some() && !st.auto {
+            let now = Instant::now();
+            if now >= deadline {
+                break;
+            }
+            let (g, _) = self.gate.cv.wait_timeout(st, deadline - now).unwrap();
+            st = g;
         }
     }
 }
@@ -109,6 +135,7 @@ pub struct Rig {
     pub accepted: Vec<String>,
     pub cap: Option<usize>,
     pub panics_released: u64,
+    pub handler: bool,
 }
 
 impl Rig {
@@ -134,6 +161,7 @@ impl Rig {
             accepted: vec![],
             cap,
             panics_released: 0,
+            handler,
         }
     }
 
@@ -146,7 +174,13 @@ impl Rig {
         let deadline = Instant::now() + SETTLE;
         let mut st = self.gate.m.lock().unwrap();
         loop {
-            let done = if st.inside.is_some() {
+            // the error handler runs right after the failing call returned: quiescence includes it
+            let handler_pending = self.handler
+                && st.log.iter().filter(|(_, o, _)| matches!(o, Outcome::Err(_))).count() > st.handled.len()
+                && st.inside.is_none();
+            let done = if handler_pending {
+                false
+            } else if st.inside.is_some() {
                 true
             } else if st.entered < self.accepted.len() {
                 false
@@ -335,6 +369,9 @@ pub fn run_case(line: &str) -> String {
     if t[0] == "QS" {
         return run_soak(&t);
     }
+    if t[0] == "QH" {
+        return run_sched(&t);
+    }
     assert!(t[0] == "Q");
     let cap = if t[1] == "u" { None } else { Some(t[1].parse::<usize>().unwrap()) };
     let handler = t[2] == "1";
@@ -470,7 +507,9 @@ pub fn run_case(line: &str) -> String {
                 format!("{}:{}@{}", m, id, n)
             })
             .collect();
-        let caller = st.log.iter().any(|(_, _, t)| *t == me) || st.handled.iter().any(|(_, _, t)| *t == me);
+        let caller = st.log.iter().any(|(_, _, t)| *t == me)
+            || st.handled.iter().any(|(_, _, t)| *t == me)
+            || st.flushes.iter().any(|t| *t == me);
         let worker_mismatch = st
             .handled
             .iter()
@@ -504,4 +543,337 @@ pub fn run_case(line: &str) -> String {
         if rel { 1 } else { 0 },
         if caller { " caller" } else { "" }
     )
+}
+
+// ------------------------------------------------------------------------------------------------
+// Sub-step schedules (hook H2): `QH <cap|u> <handler 0|1> <events>` drives the real code through a
+// chosen interleaving of the model's atomic events.  Needs `--cfg cadence_verif`.
+//
+//   events = comma list of  Tk | Tf  (a producer's try_send; k/f = what the model predicts: a producer whose send
+//            is predicted to be refused is let go at once, an accepted one stays parked before incr_submitted)
+//            | I (the oldest parked producer performs incr_submitted and returns) | W (worker: recv returns)
+//            | X (worker: incr_drained, or leaves the loop on the stop marker) | Fk | Fe<id> | Fp (the wrapped sink
+//            answers the current metric) | A | B (first / second load of queued() on a sampler thread)
+//            | C (clone the handle) | D (drop one handle)
+// observation:  R:<per event: k | f | - | s<q>.<submitted read right after> | !<problem>>|F:<submitted>.<drained>.<panics>|DL:<id:outcome;...>
+#[cfg(cadence_verif)]
+mod sched {
+    use super::*;
+    use std::cell::Cell;
+    use std::collections::{HashMap, HashSet, VecDeque};
+    use std::sync::mpsc;
+
+    #[derive(Clone, Copy, PartialEq, Eq, Hash, Debug)]
+    pub enum Role {
+        Main,
+        Worker,
+        Producer(usize),
+        Sampler,
+    }
+
+    thread_local! { static ROLE: Cell<Role> = Cell::new(Role::Worker); }
+
+    pub struct SchedSt {
+        pub parked: HashMap<Role, (&'static str, u64)>,
+        pub granted: HashSet<u64>,
+        pub next: u64,
+        pub enabled: bool,
+    }
+    pub struct Sched {
+        pub m: Mutex<SchedSt>,
+        pub cv: Condvar,
+    }
+
+    impl Sched {
+        pub fn new() -> Arc<Sched> {
+            Arc::new(Sched {
+                m: Mutex::new(SchedSt { parked: HashMap::new(), granted: HashSet::new(), next: 1, enabled: true }),
+                cv: Condvar::new(),
+            })
+        }
+        /// the installed hook: park the calling thread until the scheduler grants this very park
+        pub fn hook(self: &Arc<Sched>, site: &'static str) {
+            let role = ROLE.with(|r| r.get());
+            if role == Role::Main {
+                return;
+            }
+            let mut st = self.m.lock().unwrap();
+            if !st.enabled {
+                return;
+            }
+            let ticket = st.next;
+            st.next += 1;
+            st.parked.insert(role, (site, ticket));
+            self.cv.notify_all();
+            while st.enabled && !st.granted.contains(&ticket) {
+                st = self.cv.wait(st).unwrap();
+            }
+            st.granted.remove(&ticket);
+            if st.parked.get(&role).map(|p| p.1) == Some(ticket) {
+                st.parked.remove(&role);
+            }
+            self.cv.notify_all();
+        }
+        pub fn wait_parked(&self, role: Role, sites: &[&str]) -> Result<&'static str, String> {
+            let deadline = Instant::now() + SETTLE;
+            let mut st = self.m.lock().unwrap();
+            loop {
+                if let Some((s, _)) = st.parked.get(&role) {
+                    if sites.iter().any(|x| x == s) {
+                        return Ok(s);
+                    }
+                    return Err(format!("{:?} is parked at {} instead of {:?}", role, s, sites));
+                }
+                let now = Instant::now();
+                if now >= deadline {
+                    return Err(format!("{:?} did not reach {:?}", role, sites));
+                }
+                let (g, _) = self.cv.wait_timeout(st, deadline - now).unwrap();
+                st = g;
+            }
+        }
+        pub fn grant(&self, role: Role) -> bool {
+            let mut st = self.m.lock().unwrap();
+            if let Some((_, t)) = st.parked.remove(&role) {
+                st.granted.insert(t);
+                self.cv.notify_all();
+                true
+            } else {
+                false
+            }
+        }
+        pub fn release_all(&self) {
+            let mut st = self.m.lock().unwrap();
+            st.enabled = false;
+            self.cv.notify_all();
+        }
+    }
+
+    enum Cmd {
+        Emit(String),
+        Queued,
+        Quit,
+    }
+
+    struct Actor {
+        tx: mpsc::Sender<Cmd>,
+        rx: mpsc::Receiver<String>,
+        busy: bool,
+    }
+
+    fn spawn_actor(role: Role, q: QueuingMetricSink) -> Actor {
+        let (tx, crx) = mpsc::channel::<Cmd>();
+        let (rtx, rx) = mpsc::channel::<String>();
+        thread::spawn(move || {
+            ROLE.with(|r| r.set(role));
+            for c in crx.iter() {
+                match c {
+                    Cmd::Emit(m) => {
+                        let r = q.emit(&m);
+                        let _ = rtx.send(match r {
+                            Ok(n) if n == m.len() => "k".to_string(),
+                            Ok(n) => format!("k!{}", n),
+                            Err(e) if e.to_string().contains("full") => "f".to_string(),
+                            Err(_) => "x".to_string(),
+                        });
+                    }
+                    Cmd::Queued => {
+                        let v = q.queued();
+                        let sub = q.submitted();
+                        let _ = rtx.send(format!("s{}.{}", v, sub));
+                    }
+                    Cmd::Quit => break,
+                }
+            }
+        });
+        Actor { tx, rx, busy: false }
+    }
+
+    fn recv(a: &Actor) -> String {
+        a.rx.recv_timeout(SETTLE).unwrap_or_else(|_| "!noreturn".to_string())
+    }
+
+    pub fn run(t: &[&str]) -> String {
+        ROLE.with(|r| r.set(Role::Main));
+        let cap = if t[1] == "u" { None } else { Some(t[1].parse::<usize>().unwrap()) };
+        let handler = t[2] == "1";
+        let sched = Sched::new();
+        let s2 = sched.clone();
+        cadence::verif::install(Arc::new(move |site| s2.hook(site)));
+        let rig = Rig::new(cap, handler);
+        // the wrapped sink answers at once with the scripted outcome
+        let outcomes: Arc<Mutex<VecDeque<Outcome>>> = Arc::new(Mutex::new(VecDeque::new()));
+        {
+            let mut st = rig.gate.m.lock().unwrap();
+            st.auto = true;
+        }
+        let mut handles: Vec<QueuingMetricSink> = vec![];
+        let q0 = rig.handles[0].as_ref().unwrap().clone();
+        let mut rig = rig;
+        handles.push(rig.handles[0].take().unwrap());
+        drop(q0);
+        let base = handles[0].clone();
+        // note: `base` is an extra clone kept by the harness for its actors; the model's handle count is len(handles)
+        let mut producers: Vec<Actor> = (0..4).map(|i| spawn_actor(Role::Producer(i), base.clone())).collect();
+        let mut sampler = spawn_actor(Role::Sampler, base.clone());
+        let mut inflight: VecDeque<(usize, usize)> = VecDeque::new(); // (producer, index of its T event)
+        let mut out: Vec<String> = vec![];
+        let mut attempt = 0usize;
+        let mut accepted: Vec<String> = vec![];
+        let mut problem: Option<String> = None;
+        let _ = sched.wait_parked(Role::Worker, &["queue.run.start"]);
+        let events: Vec<&str> = if t[3] == "-" { vec![] } else { t[3].split(',').collect() };
+        for ev in events.iter() {
+            if problem.is_some() {
+                out.push("-".to_string());
+                continue;
+            }
+            let r: Result<String, String> = (|| {
+                match &ev[..1] {
+                    "T" => {
+                        let p = (0..producers.len()).find(|i| !producers[*i].busy).ok_or("no idle producer")?;
+                        let m = format!("metric.number.{}:1|c", attempt);
+                        attempt += 1;
+                        producers[p].tx.send(Cmd::Emit(m.clone())).unwrap();
+                        sched.wait_parked(Role::Producer(p), &["queue.submit.sent"])?;
+                        if &ev[1..] == "f" {
+                            sched.grant(Role::Producer(p));
+                            Ok(recv(&producers[p]))
+                        } else {
+                            producers[p].busy = true;
+                            inflight.push_back((p, out.len()));
+                            accepted.push(m);
+                            Ok("k?".to_string())
+                        }
+                    }
+                    "I" => {
+                        let (p, idx) = inflight.pop_front().ok_or("no producer is parked before incr_submitted")?;
+                        sched.grant(Role::Producer(p));
+                        let r = recv(&producers[p]);
+                        producers[p].busy = false;
+                        out[idx] = r;
+                        Ok("-".to_string())
+                    }
+                    "W" => {
+                        sched.wait_parked(Role::Worker, &["queue.run.start", "queue.run.finished"])?;
+                        sched.grant(Role::Worker);
+                        sched.wait_parked(Role::Worker, &["queue.run.dequeued"])?;
+                        Ok("-".to_string())
+                    }
+                    "X" => {
+                        sched.wait_parked(Role::Worker, &["queue.run.dequeued"])?;
+                        sched.grant(Role::Worker);
+                        let s = sched.wait_parked(Role::Worker, &["queue.run.counted", "queue.run.exit"])?;
+                        if s == "queue.run.exit" {
+                            sched.grant(Role::Worker);
+                        }
+                        Ok("-".to_string())
+                    }
+                    "F" => {
+                        let o = match &ev[1..2] {
+                            "k" => Outcome::Ok,
+                            "p" => Outcome::Panic,
+                            _ => Outcome::Err(ev[2..].parse().unwrap()),
+                        };
+                        {
+                            let mut st = rig.gate.m.lock().unwrap();
+                            st.release = Some(o.clone());
+                        }
+                        sched.wait_parked(Role::Worker, &["queue.run.counted"])?;
+                        sched.grant(Role::Worker);
+                        if o == Outcome::Panic {
+                            sched.wait_parked(Role::Worker, &["queue.sentinel.respawn"])?;
+                            sched.grant(Role::Worker);
+                            sched.wait_parked(Role::Worker, &["queue.run.start"])?;
+                        } else {
+                            sched.wait_parked(Role::Worker, &["queue.run.finished"])?;
+                        }
+                        Ok("-".to_string())
+                    }
+                    "A" => {
+                        sampler.tx.send(Cmd::Queued).unwrap();
+                        sampler.busy = true;
+                        sched.wait_parked(Role::Sampler, &["queue.queued.between"])?;
+                        Ok("-".to_string())
+                    }
+                    "B" => {
+                        sched.wait_parked(Role::Sampler, &["queue.queued.between"])?;
+                        sched.grant(Role::Sampler);
+                        sampler.busy = false;
+                        Ok(recv(&sampler))
+                    }
+                    "C" => {
+                        let c = handles[0].clone();
+                        handles.push(c);
+                        Ok("-".to_string())
+                    }
+                    "D" => {
+                        let h = handles.pop().ok_or("no handle to drop")?;
+                        drop(h);
+                        Ok("-".to_string())
+                    }
+                    _ => Err(format!("bad event {}", ev)),
+                }
+            })();
+            match r {
+                Ok(s) => out.push(s),
+                Err(e) => {
+                    out.push(format!("!{}", e.replace(',', ";").replace('|', "/")));
+                    problem = Some(e);
+                }
+            }
+        }
+        // final observation with every thread still parked where the schedule left it
+        let fin = format!("{}.{}.{}", base.submitted(), base.drained(), base.panics());
+        let dl: Vec<String> = {
+            let st = rig.gate.m.lock().unwrap();
+            st.log
+                .iter()
+                .map(|(m, o, _)| {
+                    format!(
+                        "{}:{}",
+                        accepted.iter().position(|x| x == m).map(|i| i.to_string()).unwrap_or_else(|| "?".to_string()),
+                        match o {
+                            Outcome::Ok => "k".to_string(),
+                            Outcome::Err(id) => format!("e{}", id),
+                            Outcome::Panic => "p".to_string(),
+                        }
+                    )
+                })
+                .collect()
+        };
+        // clean up: let everything run, close everything
+        sched.release_all();
+        for p in producers.iter_mut() {
+            let _ = p.tx.send(Cmd::Quit);
+        }
+        let _ = sampler.tx.send(Cmd::Quit);
+        // in-flight producers return now; results of accepted-but-unfinished sends are "k?" by construction
+        drop(base);
+        handles.clear();
+        {
+            let deadline = Instant::now() + Duration::from_millis(if problem.is_some() { 100 } else { 1000 });
+            let mut st = rig.gate.m.lock().unwrap();
+            while !st.dropped {
+                let now = Instant::now();
+                if now >= deadline {
+                    break;
+                }
+                let (g, _) = rig.gate.cv.wait_timeout(st, deadline - now).unwrap();
+                st = g;
+            }
+        }
+        cadence::verif::uninstall();
+        format!("R:{}|F:{}|DL:{}", out.join(","), fin, dl.join(";"))
+    }
+}
+
+#[cfg(cadence_verif)]
+pub fn run_sched(t: &[&str]) -> String {
+    sched::run(t)
+}
+
+#[cfg(not(cadence_verif))]
+pub fn run_sched(_t: &[&str]) -> String {
+    "nohooks".to_string()
 }
